@@ -41,7 +41,7 @@ def examples(tier):
 def strategy(draw, tier="quick"):
     regime = draw(st.sampled_from(["FLOAT", "FLOAT", "BOOL", "QQ"]))
     exact = regime == "QQ"
-    g = draw(gen.grammar(regimes=[regime], shape="nonrecursive" if exact else None, max_nt=3, max_rules=6, max_terms=2))
+    g = draw(gen.grammar(regimes=[regime], shape="nonrecursive" if exact else None, max_nt=3, max_rules=6, max_terms=2, long_rate=0.15))
     big = draw(st.integers(0, 11)) == 0  # now and then a transducer with 8-9 states
     t = draw(gen.transducer(regime="QQ" if regime == "FLOAT" else regime, max_states=9 if big else 3, max_arcs=14 if big else 5, acyclic=exact or big, min_states=8 if big else 1))  # big ones are acyclic: the reference stays cheap
     if big:
